@@ -124,13 +124,41 @@ pub fn case_strategy() -> impl Strategy<Value = Case> {
 pub fn run(ctx: &mut Ctx) {
     ctx.rule = "cases = (backend, statement spec): SELECT / INSERT / UPDATE / DELETE with WITH clauses, nesting up to 3 (subqueries in FROM / JOIN, set-operation arms, CTE bodies), \
 expressions with values, CASE, IN lists (incl. the empty-list rewrite), LIKE patterns, custom templates, VALUES tables, window definitions with frame offsets (inline and named), ORDER BY with NULLS and FIELD, \
-LIMIT / OFFSET, upsert (target / action WHERE, update values), RETURNING expressions, MySQL joined UPDATE. Every bound value is re-tagged uniquely before building. \
+LIMIT / OFFSET, upsert (target / action WHERE, update values), RETURNING expressions, MySQL joined UPDATE. Every bound value is re-tagged uniquely before building; plus one statement with exactly k bound values for every k up to 2200 (quick) / 12000 (thorough) per backend. \
 Non-trivial = at least 2 parameters and at least one nesting construct; distinct by rendered SQL."
         .into();
     ctx.assumptions.push("reading order of clauses per dialect is transcribed in stmt_params.rs from the engines' grammars; MySQL's NULLS emulation and ORDER BY FIELD legitimately repeat the ordered expression (its values are bound once per repetition)".into());
     ctx.domain_restrictions.push("combinations a backend documents as unsupported (panic arms) or that the engine grammar cannot express are not generated (see stmt_gen::fix_render)".into());
     let n = ctx.tier.pick(200_000, 4_000_000);
     ctx.run_proptest("statements", n, &case_strategy, &check);
+    // every parameter count up to a bound on every backend (number formatting of $n, buffers): SELECT with an IN list of k values
+    // and a LIMIT, alternately an INSERT of k single-value rows
+    let max_params: u64 = ctx.tier.pick(2_200, 12_000);
+    ctx.run_indexed("parameter-counts", max_params * 3, &|i| many_params_case(DIALECTS[(i % 3) as usize], 1 + (i / 3) as usize), &check);
+}
+
+pub fn many_params_case(dialect: Dialect, k: usize) -> Case {
+    use crate::expr_spec::E;
+    let stmt = if k % 2 == 1 {
+        let mut s = SelectSpec::default();
+        s.items = vec![Item { e: E::Col(0), alias: None, win: None }];
+        s.from = vec![FromSpec::Table(0, None)];
+        s.wheres = vec![E::In { not: false, x: Box::new(E::Col(1)), list: (0..k as i64 - 1).map(E::Int).collect() }];
+        s.limit = Some(7);
+        Stmt::Select(s)
+    } else {
+        Stmt::Insert(InsertSpec {
+            replace: false,
+            table: 0,
+            columns: vec![1],
+            source: InsertSource::Values((0..k as i64).map(|v| vec![E::Int(v)]).collect()),
+            on_conflict: None,
+            returning: None,
+            with: None,
+            api: (k % 3) as u8,
+        })
+    };
+    Case { dialect, stmt }
 }
 
 pub fn replay(_part: &str, case: &J, obs: &mut Obs) -> R {
